@@ -268,10 +268,9 @@ def run_two_calls(job):
             msgs.append("status: CMinx failed in the second call but the script continued")
         t_cm = box.files("work/out-cmake") if os.path.isdir(out_cm) else {}
         t_cli = box.files("work/out-cli") if os.path.isdir(out_cli) else {}
-        if os.path.isdir(os.path.join(cwd, "out-cmake")) != os.path.isdir(os.path.join(cwd, "out-cli")):
-            # "exactly the output tree": an output directory that only one side creates (even an empty one) is a difference
-            msgs.append(f"tree: the output directory exists after cminx_gen_rst: {os.path.isdir(os.path.join(cwd, 'out-cmake'))}, "
-                        f"after the direct run: {os.path.isdir(os.path.join(cwd, 'out-cli'))} (variant {variant})")
+        if os.path.isdir(out_cm) != os.path.isdir(out_cli):
+            msgs.append(f"tree: the output directory exists after the two cminx_gen_rst calls: {os.path.isdir(out_cm)}, "
+                        f"after the two command lines: {os.path.isdir(out_cli)}")
         if t_cm != t_cli:
             diffk = sorted(k for k in set(t_cm) | set(t_cli) if t_cm.get(k) != t_cli.get(k))
             msgs.append(f"tree: after two calls in one CMake run ({kind}) the output differs from the two command lines in {diffk[:4]}")
